@@ -1533,7 +1533,7 @@ func runC05(f *common.Flags, res *common.Result, m *mdl) {
 	r := common.NewRNG(f.Seed)
 	phase("2")
 	// 2. the entry codec alone: raw entry, then Get / GetBytes / GetFile (with and without the output present)
-	nCodec, nHist, nTrace := 700, 1500, 120
+	nCodec, nHist, nTrace := 600, 1300, 120
 	if f.Tier == "thorough" {
 		nCodec, nHist, nTrace = 30000, 40000, 3000
 	}
@@ -1604,5 +1604,5 @@ func runC05(f *common.Flags, res *common.Result, m *mdl) {
 	if f.Replay == "" {
 		faults = runC05Faults(f, res, m) + "; " + runC05Hash(f, res, m)
 	}
-	res.Rule = faults + "; " + fmt.Sprintf("corpus, a systematic family of entries valid but for one degenerate field (each numeric field blank, a lone digit or sign at each of its 20 positions, signed, zero-padded, overflowing int64/uint64, trailing/inner junk, left-aligned; each of the 2x64 hex positions replaced by non-hex bytes, the other case, another digit; every separator and the header replaced; lengths +-3), %d raw index entries (valid, upper-case hex, wrong lengths, signs, overflowing and malformed numbers, foreign id, bad separators, random bytes) looked up through Get/GetBytes/GetFile, then %d random histories of 3..30 operations over 4 ids and 6 contents (empty, two equal-length pairs, one 40000-byte content) mixing Put/PutBytes/Get/GetBytes/GetFile/OutputFile with truncate/extend/flip/delete/replace of index and data files and raw entries; every result (found or not, bytes, size, OutputID, time, file name) and the final directory listing with contents are compared with the model; direct oracles: SHA-256 of returned bytes, os.Stat size of the named file, no panic, Put-then-GetBytes/GetFile; a history is non-trivial when it contains both a successful and a rejected GetBytes/GetFile; finally %d histories run call by call through the os-shimmed copy of the package, where beside the result the sequence of file operations of every Put/PutBytes/Get/GetBytes/GetFile/OutputFile (with the Stat/Chtimes of c.used) is compared with the model's; the extracted booleans c05_holds_on / c05_put_holds_on are evaluated on every history", nCodec, nHist, nTrace)
+	res.Rule = faults + "; dimensions of CONVENTIONS addendum 4 in the history run: (1) state carried between calls -- every API step goes through one of three *cache.Cache values opened on the one directory (fresh ones per history; a systematic family in which one handle looks an id up before another stores it, never stored or with its index entry deleted, and every fourth random history with random handles), and every id stored and neither overwritten nor damaged since must read exactly, through EVERY handle, after every later Put; sources that are not at their start and readers used for two Puts (compared with the model's positioned source); a source whose Read makes a lookup of its own while the Put is in progress (at the first Read of the hash pass, before the first and before the last write of the copy pass; of an id naming the output being written or another one; with that output intact, damaged with and without change of length, or gone), compared with the model's put_cb; (2) caller's memory -- the slice GetBytes returned and the data given to PutBytes are overwritten in place (and their spare capacity used) as soon as the call has been examined: nothing returned later may change; direct oracles added: Put returns the SHA-256 and length of the data; a Put from a well-behaved source does not fail (on a store holding a file for that output, intact or damaged: the repair clause); " + fmt.Sprintf("corpus, a systematic family of entries valid but for one degenerate field (each numeric field blank, a lone digit or sign at each of its 20 positions, signed, zero-padded, overflowing int64/uint64, trailing/inner junk, left-aligned; each of the 2x64 hex positions replaced by non-hex bytes, the other case, another digit; every separator and the header replaced; lengths +-3), %d raw index entries (valid, upper-case hex, wrong lengths, signs, overflowing and malformed numbers, foreign id, bad separators, random bytes) looked up through Get/GetBytes/GetFile, then %d random histories of 3..30 operations over 4 ids and 6 contents (empty, two equal-length pairs, one 40000-byte content) mixing Put/PutBytes/Get/GetBytes/GetFile/OutputFile with truncate/extend/flip/delete/replace of index and data files and raw entries; every result (found or not, bytes, size, OutputID, time, file name) and the final directory listing with contents are compared with the model; direct oracles: SHA-256 of returned bytes, os.Stat size of the named file, no panic, Put-then-GetBytes/GetFile; a history is non-trivial when it contains both a successful and a rejected GetBytes/GetFile; finally %d histories run call by call through the os-shimmed copy of the package, where beside the result the sequence of file operations of every Put/PutBytes/Get/GetBytes/GetFile/OutputFile (with the Stat/Chtimes of c.used) is compared with the model's; the extracted booleans c05_holds_on / c05_put_holds_on are evaluated on every history", nCodec, nHist, nTrace)
 }
